@@ -442,8 +442,15 @@ fn gen_casts(ctx: &mut Ctx) -> Result<String, String> {
     let uh_ok = uh == "{letentry=self.inner.downcast_ref()?;Some(entry.handle())}";
     let ii = squash(find_fn(&file, "CacheEntry", "into_inner")?.block);
     let ii_ok = ii == "{ifletOk(storage)=self.0.downcast(){return(storage.value.into_inner(),storage.id);}wrong_handle_type()}";
+    // `reloaded_global` (typed and untyped handle): one atomic swap, so that concurrent pollers share one `true` per rewrite
+    let rg_expected = "{self.either(||false,|this|this.reload_global.swap(false,Ordering::Acquire),)}";
+    let compact_rg: String = src.chars().filter(|c| !c.is_whitespace()).collect();
+    let rg_ok = compact_rg.matches("pubfnreloaded_global(&self)->bool{self.either(||false,|this|this.reload_global.swap(false,Ordering::Acquire),)}").count() == 2
+        && compact_rg.matches("fnreloaded_global(").count() == 2 && !rg_expected.is_empty();
     Ok(format!(
-"/-- `UntypedEntry::is::<T>` compares the stored `TypeId` with `TypeId::of::<T>()` -/
+"/-- `Handle::reloaded_global` and `UntypedHandle::reloaded_global` read and clear the flag in ONE atomic swap -/
+def reloadedGlobalIsAtomicSwap : Bool := {rg_ok}
+/-- `UntypedEntry::is::<T>` compares the stored `TypeId` with `TypeId::of::<T>()` -/
 def isComparesTypeId : Bool := {is_ok}
 /-- `new_static` / `new_dynamic` store `TypeId::of::<T>()` of the value they are given -/
 def entryStoresOwnTypeId : Bool := {tid_ok}
